@@ -221,6 +221,33 @@ def lexCombiningOp (input : Input) : Option LogicalOp × Input :=
   | some (op, r) => (some op, skipSpace r)
   | none => (none, input)
 
+/-- `rest.starts_with(|c| c.is_ascii_alphanumeric() || c == '_' || c == '.')` -/
+def gluedTo (rest : Input) : Bool :=
+  match rest with
+  | c :: _ => isIdentChar c || c == '.'
+  | [] => false
+
+/-- `Identifier::lex_with(input, scheme).is_ok()`: the maximal dotted name at the start of the
+input is a registered field or function -/
+def isRegistered (s : Scheme) (input : Input) : Bool :=
+  match lexIdentifier s input with
+  | .ok _ => true
+  | .error _ => false
+
+/-- `LogicalExpr::lex_unary_op` (logical_expr.rs): `UnaryOp::lex` (`lexEnum unaryOps`), except
+that the WORD operator directly followed by an identifier character or `.` (`glued`; never for
+`!`) is *not* the operator when `Identifier::lex_with(input, scheme)` succeeds on the input
+starting at the `n`, i.e. when the maximal dotted name there is a registered field or function:
+`notes` is the field `notes`, never `not es`; an unregistered `nott` is still `not t`; a bare
+`not` (nothing glued) is always the operator, even if a field is named `not`. -/
+def lexUnary (env : PEnv) (input : Input) : Option (Unit × Input) :=
+  match lexEnum unaryOps input with
+  | none => none
+  | some (op, rest) =>
+    -- `glued = !input.starts_with('!') && rest.starts_with(name character)`
+    if ((expect input "!").isNone && gluedTo rest) && isRegistered env.scheme input then none
+    else some (op, rest)
+
 def optPrec : Option LogicalOp → Nat
   | none => 0
   | some o => o.prec
@@ -428,7 +455,9 @@ def comparisonL (env : PEnv) (lower : Option Level) (input : Input) : LexRes (Ty
   | .error e => .error e
   | .ok (lhs, rest) => cmpWithLhs env lhs.node lhs.ty rest
 
-/-- `LogicalExpr::lex_simple_expr` -/
+/-- `LogicalExpr::lex_simple_expr`; the unary operator is recognised by `lex_unary_op`
+(`lexUnary`): a registered name that begins with the word `not` falls through to the
+quantifier / comparison branches. -/
 def simpleL (env : PEnv) (lower : Option Level) (input : Input) : LexRes (Typed LExpr) :=
   match expect input "(" with
   | some rest =>
@@ -442,7 +471,7 @@ def simpleL (env : PEnv) (lower : Option Level) (input : Input) : LexRes (Typed 
         | some r2 => .ok ({ node := .paren e.node, ty := e.ty }, r2)
         | none => errAt .expectedLiteral (skipSpace r)
   | none =>
-    match lexEnum unaryOps input with
+    match lexUnary env input with
     | some (_, rest) =>
       match lower with
       | none => nestErr input
@@ -501,7 +530,10 @@ def argFallback (env : PEnv) (lower : Option Level) (input : Input) : LexRes (Ty
         | some (.ok r) => .ok r
         | _ => errAt .eof input
 
-/-- `FunctionCallArgExpr::lex_with`: the argument and its type -/
+/-- `FunctionCallArgExpr::lex_with`: the argument and its type. An argument is a logical
+expression when it starts with `(`, with a unary operator in the sense of
+`LogicalExpr::lex_unary_op` (`lexUnary`: not a registered name beginning with `not`) or with a
+quantifier call. -/
 def argL (env : PEnv) (lower : Option Level) (input : Input) : LexRes (Typed AExpr) :=
   match input with
   | [] => argFallback env lower input
@@ -512,7 +544,7 @@ def argL (env : PEnv) (lower : Option Level) (input : Input) : LexRes (Typed AEx
       match argLit .bytes input with
       | some r => r
       | none => errAt .eof input
-    else if c = '(' || (lexEnum unaryOps input).isSome || (lexQuantCall input).isSome then
+    else if c = '(' || (lexUnary env input).isSome || (lexQuantCall input).isSome then
       match logicalL env lower input with
       | .error e => .error e
       | .ok (e, r) => .ok ({ node := .logical e.node, ty := e.ty }, r)
